@@ -113,6 +113,14 @@ pub fn run(case: &Value) -> Vec<String> {
                 input_name = "svc.wsdl";
                 std::fs::write(indir.join("svc.wsdl"), ENCODED_WSDL).unwrap();
             }
+            "unsupported_binding_parts" => {
+                // the same encoded body, naming its part: still not a literal binding
+                input_name = "svc.wsdl";
+                let w = ENCODED_WSDL
+                    .replace("<soap:body use=\"encoded\"/>", "<soap:body use=\"encoded\" parts=\"parameters\"/>")
+                    .replace("style=\"rpc\"", "style=\"document\"");
+                std::fs::write(indir.join("svc.wsdl"), w).unwrap();
+            }
             "missing_input" => {}
             _ => std::fs::write(indir.join("schema.xsd"), GOOD_XSD).unwrap(),
         }
